@@ -29,6 +29,10 @@ fn main() {
     ] {
         plain.push(w.to_string());
     }
+    // nested sets that are LARGER than the set they sit in (T: three members, F: five members)
+    for w in ["T", "F", "AT", "TA", "BT", "AF", "FA", "ATB", "TT", "NT", "TN", "TF", "ATNB", "AAT", "ABTAB", "AFB", "NFN"] {
+        plain.push(w.to_string());
+    }
     let mut shapes: Vec<(String, &str)> = plain.iter().map(|w| (w.clone(), "plain")).collect();
     // the same members declared in other syntactic ways (decorations that must not change the meaning)
     for dec in ["field-attributes", "struct-attributes", "visibility", "type-paths", "raw-identifiers", "macro-template", "field-names"] {
@@ -45,6 +49,8 @@ fn main() {
         ("MarketAgentSet", "M", "MProbeA", "MProbeB", "NestedM", "bourse_de::MarketEnv<2, 3>", "bourse_de::agents::MarketAgentSet"),
     ] {
         writeln!(s, "#[derive({mac})]\npub struct {nested} {{ pub x: {probe_a}, pub y: {probe_b} }}").unwrap();
+        writeln!(s, "#[derive({mac})]\npub struct {nested}3 {{ pub x: {probe_a}, pub y: {probe_b}, pub z: {probe_a} }}").unwrap();
+        writeln!(s, "#[derive({mac})]\npub struct {nested}5 {{ pub x: {probe_a}, pub y: {probe_b}, pub z: {probe_a}, pub v: {probe_b}, pub w: {probe_a} }}").unwrap();
         for (i, (w, dec)) in shapes.iter().enumerate() {
             let name = format!("Shape{suffix}{i}");
             let fname = |j: usize| -> String {
@@ -57,10 +63,14 @@ fn main() {
                     format!("f{j}")
                 }
             };
+            let nested3 = format!("{nested}3");
+            let nested5 = format!("{nested}5");
             let ty_of = |k: char| -> &str {
                 match k {
                     'A' => probe_a,
                     'B' => probe_b,
+                    'T' => &nested3,
+                    'F' => &nested5,
                     _ => nested,
                 }
             };
@@ -116,6 +126,14 @@ fn main() {
                         writeln!(s, "        {}: {probe_b}::new({tag}, log),", fname(j)).unwrap();
                         tag += 1;
                     }
+                    'T' => {
+                        writeln!(s, "        {}: {nested}3 {{ x: {probe_a}::new({tag}, log), y: {probe_b}::new({}, log), z: {probe_a}::new({}, log) }},", fname(j), tag + 1, tag + 2).unwrap();
+                        tag += 3;
+                    }
+                    'F' => {
+                        writeln!(s, "        {}: {nested}5 {{ x: {probe_a}::new({tag}, log), y: {probe_b}::new({}, log), z: {probe_a}::new({}, log), v: {probe_b}::new({}, log), w: {probe_a}::new({}, log) }},", fname(j), tag + 1, tag + 2, tag + 3, tag + 4).unwrap();
+                        tag += 5;
+                    }
                     _ => {
                         writeln!(s, "        {}: {nested} {{ x: {probe_a}::new({tag}, log), y: {probe_b}::new({}, log) }},", fname(j), tag + 1).unwrap();
                         tag += 2;
@@ -130,6 +148,8 @@ fn main() {
             for (j, k) in w.chars().enumerate() {
                 match k {
                     'A' | 'B' => writeln!(s, "    a.{}.update(env, rng);", fname(j)).unwrap(),
+                    'T' => writeln!(s, "    a.{0}.x.update(env, rng);\n    a.{0}.y.update(env, rng);\n    a.{0}.z.update(env, rng);", fname(j)).unwrap(),
+                    'F' => writeln!(s, "    a.{0}.x.update(env, rng);\n    a.{0}.y.update(env, rng);\n    a.{0}.z.update(env, rng);\n    a.{0}.v.update(env, rng);\n    a.{0}.w.update(env, rng);", fname(j)).unwrap(),
                     _ => writeln!(s, "    a.{0}.x.update(env, rng);\n    a.{0}.y.update(env, rng);", fname(j)).unwrap(),
                 }
             }
